@@ -242,13 +242,16 @@ def method_table(x):
                         out.append((n, "call", a))
             else:
                 out.append((n, "call", ()))
+    # further read-only protocols of the same object (not public names, but how other code reads a sequence)
+    for r in ("@array", "@bytes", "@list", "@contains", "@eq-rebuilt", "@hash-stable"):
+        out.append((r, "reading", ()))
     return out
 
 
 def gen_methods(tier, seed):
     thorough = tier == "thorough"
     for new in (False, True):
-        for mt, parents in (("dna", ["AGCTR", "TG-CANR", "ATGAAATAG"]), ("rna", ["UG-CAY"]), ("protein", ["MKVLQ"])):
+        for mt, parents in (("dna", ["AGCTR", "TG-CANR", "ATGAAATAG", "AC?GTN"]), ("rna", ["UG-CAY"]), ("protein", ["MKVLQ"])):
             for parent in parents:
                 L = len(parent)
                 nuc = mt in ("dna", "rna")
@@ -265,6 +268,19 @@ def gen_methods(tier, seed):
 
 
 def _invoke(obj, n, kind, args, other):
+    if kind == "reading":
+        if n == "@array":
+            return numpy.array(obj)
+        if n == "@bytes":
+            return bytes(obj)
+        if n == "@list":
+            return [str(c) for c in obj]
+        if n == "@contains":
+            return [(m in obj) for m in ("A", "AC", "-", "U", "T", str(obj)[1:3])]
+        if n == "@eq-rebuilt":
+            return obj == type(obj)(str(obj), name=obj.name) if not hasattr(obj, "_seq") else str(obj) == str(obj[:])
+        if n == "@hash-stable":
+            return hash(obj) == hash(obj)
     if kind == "prop":
         return getattr(obj, n)
     if kind == "other":
